@@ -35,6 +35,7 @@ import (
 	"path/filepath"
 	"sort"
 	"strings"
+	"time"
 
 	"golang.org/x/tools/go/packages"
 	"golang.org/x/tools/go/ssa"
@@ -55,8 +56,8 @@ var kinds = []struct{ Pkg, Iface, Kind string }{
 type bits uint8
 
 const (
-	P bits = 1
-	H bits = 2 // HP: points to method-local memory that directly holds P values
+	P  bits = 1
+	H  bits = 2 // HP: points to method-local memory that directly holds P values
 	HH bits = 4 // points to method-local memory that holds H/HH values (a load yields H|HH, not P)
 )
 
@@ -102,13 +103,6 @@ var whitelist = []wlEntry{
 	{"errors.", "errors.Is/As/Unwrap/New/Join read the chain; As writes only to its target, which callers allocate locally"},
 	{"strings.", "pure functions over strings / read-only over slices"},
 	{"bytes.", "bytes.NewBuffer*/Equal/Contains take ownership of or read the slice; heimdall passes fresh or immutable data"},
-	{"slices.Contains", "read-only scan"},
-	{"slices.Index", "read-only scan"},
-	{"slices.Equal", "read-only scan"},
-	{"slices.Clone", "allocates a new backing array, reads the source"},
-	{"maps.Clone", "allocates a new map, reads the source"},
-	{"maps.Keys", "read-only iteration"},
-	{"maps.Values", "read-only iteration"},
 	{"len", "builtin, read-only"},
 	{"cap", "builtin, read-only"},
 	{"print", "builtin, read-only"},
@@ -216,9 +210,13 @@ var whitelist = []wlEntry{
 
 // fresh: unanalysed functions whose result is newly allocated memory holding copies of the
 // elements of their arguments (a store into the result does not hit the argument's memory).
-var fresh = []string{"maps.Clone", "slices.Clone", "bytes.Clone", "strings.", "fmt.Sprint", "slices.Collect", "maps.Keys", "maps.Values"}
+var fresh = []string{"bytes.Clone", "strings.", "fmt.Sprint"}
 
 func isFresh(name string) bool {
+	if g, ok := stdGeneric(name); ok {
+		return g.fresh
+	}
+
 	for _, f := range fresh {
 		if strings.HasPrefix(name, f) {
 			return true
@@ -226,6 +224,113 @@ func isFresh(name string) bool {
 	}
 
 	return false
+}
+
+// ---------------------------------------------------------------- std generics: slices, maps, iter
+//
+// The generic functions of the standard packages slices, maps and iter are matched by their EXACT name
+// (the instantiation suffix "[...]" is cut off; "slices.Sort" must not match "slices.Sorted").  Their
+// contracts are part of the Go 1 compatibility promise and stated in the package documentation:
+//
+//	pure     reads its arguments only; the result is a scalar, an iterator over the argument, or
+//	         (fresh) newly allocated memory holding copies of the elements
+//	writer   writes the slice / map that is its FIRST argument in place (an effect when that argument is
+//	         receiver-derived); reads the others
+//	callback additionally calls a function argument with elements of the first argument: that function is
+//	         analysed with receiver-derived parameters; if it is not statically known the call is not
+//	         considered harmless
+//
+// A function of these packages that is not listed is treated like any other unanalysed callee.
+type stdGen struct {
+	writer, fresh, callback bool
+	reason                  string
+}
+
+var stdGenerics = map[string]stdGen{
+	"slices.All":              {reason: "iterator over the slice; reads"},
+	"slices.Values":           {reason: "iterator over the slice; reads"},
+	"slices.Backward":         {reason: "iterator over the slice; reads"},
+	"slices.Chunk":            {reason: "iterator of sub-slices (aliases, reads)"},
+	"slices.Collect":          {fresh: true, reason: "collects the values of an iterator into a new slice"},
+	"slices.Sorted":           {fresh: true, reason: "collects into a NEW slice and sorts that"},
+	"slices.SortedFunc":       {fresh: true, callback: true, reason: "collects into a NEW slice and sorts that"},
+	"slices.SortedStableFunc": {fresh: true, callback: true, reason: "collects into a NEW slice and sorts that"},
+	"slices.Clone":            {fresh: true, reason: "allocates a new backing array, reads the source"},
+	"slices.Concat":           {fresh: true, reason: "allocates a new slice, reads the sources"},
+	"slices.Repeat":           {fresh: true, reason: "allocates a new slice, reads the source"},
+	"slices.Contains":         {reason: "read-only scan"},
+	"slices.ContainsFunc":     {callback: true, reason: "read-only scan"},
+	"slices.Index":            {reason: "read-only scan"},
+	"slices.IndexFunc":        {callback: true, reason: "read-only scan"},
+	"slices.Equal":            {reason: "read-only comparison"},
+	"slices.EqualFunc":        {callback: true, reason: "read-only comparison"},
+	"slices.Compare":          {reason: "read-only comparison"},
+	"slices.CompareFunc":      {callback: true, reason: "read-only comparison"},
+	"slices.BinarySearch":     {reason: "read-only search"},
+	"slices.BinarySearchFunc": {callback: true, reason: "read-only search"},
+	"slices.Max":              {reason: "read-only scan"},
+	"slices.MaxFunc":          {callback: true, reason: "read-only scan"},
+	"slices.Min":              {reason: "read-only scan"},
+	"slices.MinFunc":          {callback: true, reason: "read-only scan"},
+	"slices.IsSorted":         {reason: "read-only scan"},
+	"slices.IsSortedFunc":     {callback: true, reason: "read-only scan"},
+	"slices.Sort":             {writer: true, reason: "sorts its argument in place"},
+	"slices.SortFunc":         {writer: true, callback: true, reason: "sorts its argument in place"},
+	"slices.SortStableFunc":   {writer: true, callback: true, reason: "sorts its argument in place"},
+	"slices.Reverse":          {writer: true, reason: "reverses its argument in place"},
+	"slices.Insert":           {writer: true, reason: "may shift elements of its argument in place"},
+	"slices.Delete":           {writer: true, reason: "shifts and zeroes elements of its argument in place"},
+	"slices.DeleteFunc":       {writer: true, callback: true, reason: "shifts and zeroes elements of its argument in place"},
+	"slices.Replace":          {writer: true, reason: "overwrites elements of its argument in place"},
+	"slices.Compact":          {writer: true, reason: "shifts and zeroes elements of its argument in place"},
+	"slices.CompactFunc":      {writer: true, callback: true, reason: "shifts and zeroes elements of its argument in place"},
+	"slices.Grow":             {writer: true, reason: "may append to (the spare capacity of) its argument"},
+	"slices.Clip":             {writer: true, reason: "only re-slices, but listed with the in-place functions to stay on the safe side"},
+	"slices.AppendSeq":        {writer: true, reason: "appends into its first argument"},
+	"maps.Keys":               {reason: "iterator over the map; reads"},
+	"maps.Values":             {reason: "iterator over the map; reads"},
+	"maps.All":                {reason: "iterator over the map; reads"},
+	"maps.Clone":              {fresh: true, reason: "allocates a new map, reads the source"},
+	"maps.Collect":            {fresh: true, reason: "collects the pairs of an iterator into a new map"},
+	"maps.Equal":              {reason: "read-only comparison"},
+	"maps.EqualFunc":          {callback: true, reason: "read-only comparison"},
+	"maps.Copy":               {writer: true, reason: "writes into its first argument (dst)"},
+	"maps.Insert":             {writer: true, reason: "writes into its first argument"},
+	"maps.DeleteFunc":         {writer: true, callback: true, reason: "deletes from its first argument"},
+	"iter.Pull":               {reason: "runs the iterator on demand; reads"},
+	"iter.Pull2":              {reason: "runs the iterator on demand; reads"},
+}
+
+func stdGeneric(name string) (stdGen, bool) {
+	if !strings.HasPrefix(name, "slices.") && !strings.HasPrefix(name, "maps.") && !strings.HasPrefix(name, "iter.") {
+		return stdGen{}, false
+	}
+
+	base := name
+	if i := strings.Index(base, "["); i >= 0 {
+		base = base[:i]
+	}
+
+	g, ok := stdGenerics[base]
+
+	return g, ok
+}
+
+// isIterSig: func(yield func(...) bool) — the shape of iter.Seq / iter.Seq2 (also of unnamed iterator types).
+func isIterSig(t types.Type) bool {
+	sig, ok := t.Underlying().(*types.Signature)
+	if !ok || sig.Params().Len() != 1 || sig.Results().Len() != 0 {
+		return false
+	}
+
+	y, ok := sig.Params().At(0).Type().Underlying().(*types.Signature)
+	if !ok || y.Results().Len() != 1 {
+		return false
+	}
+
+	b, ok := y.Results().At(0).Type().Underlying().(*types.Basic)
+
+	return ok && b.Kind() == types.Bool
 }
 
 func whitelisted(name string, argIdx int, b bits) (bool, string) {
@@ -317,8 +422,8 @@ type analyzer struct {
 	verbose    bool
 	descendAll bool
 
-	anyAsserted   map[string]types.Type      // types asserted on receiver-derived empty interfaces
-	rt            *rtset                     // type structure reachable from the mechanism type under analysis
+	anyAsserted   map[string]types.Type // types asserted on receiver-derived empty interfaces
+	rt            *rtset                // type structure reachable from the mechanism type under analysis
 	hitCache      map[string]bool
 	hitGen        map[string]int
 	closuresBySig map[string][]*ssa.Function // module closures and functions by signature
@@ -1268,7 +1373,78 @@ func (fa *fnAnalysis) unknown(name string, c *ssa.CallCommon, args []absval, arg
 
 	setRes(absval{b: rb})
 
-	if anyTaint == 0 {
+	iterCall := strings.HasPrefix(name, "dynamic:") && !c.IsInvoke() && isIterSig(c.Value.Type())
+
+	if anyTaint == 0 && !(iterCall && fa.get(c.Value).b != 0) {
+		return
+	}
+
+	// a function argument handed to code without analysed body is called by it with values derived from the
+	// other arguments (callbacks of slices.XxxFunc, the yield function of a range-over-func loop): analyse it with
+	// every parameter as tainted as a value loaded from those arguments
+	g, isStd := stdGeneric(name)
+
+	if (isStd && g.callback) || iterCall {
+		var el bits
+		for _, av := range args {
+			el |= fa.loadFrom(av).b | av.b
+		}
+
+		if iterCall {
+			v := fa.get(c.Value)
+			el |= fa.loadFrom(v).b | v.b
+		}
+
+		for i, av := range args {
+			if _, isFn := argVals[i].Type().Underlying().(*types.Signature); !isFn {
+				continue
+			}
+
+			if av.fn == nil {
+				if el != 0 {
+					fa.effect("UnknownCall", name+" <- callback of unknown identity "+fieldName(argVals[i]), pos, argVals[i].Type(), true)
+				}
+
+				continue
+			}
+
+			params := make([]absval, len(av.fn.Params))
+			for k := range params {
+				params[k] = absval{b: el}
+			}
+
+			s := fa.a.analyse(av.fn, params, av.fv, fa.depth+1)
+			fa.merge(s, av.fn, nil)
+		}
+	}
+
+	if iterCall {
+		// calling an iterator of unknown identity: if it were module code it would have been found by its
+		// signature; an iterator built by code outside the module can reach receiver memory only through the
+		// arguments it was built from (judged where it was built) and through yield (analysed above)
+		return
+	}
+
+	if isStd {
+		for i, av := range args {
+			m := fa.a.mask(av.b, argVals[i].Type())
+			if m == 0 {
+				continue
+			}
+
+			if _, isFn := argVals[i].Type().Underlying().(*types.Signature); isFn && av.fn != nil {
+				continue // analysed above
+			}
+
+			if g.writer && i == 0 && m&P != 0 {
+				fa.effect("UnknownCall", name+" (writes its first argument in place) <- "+fieldName(argVals[i]), pos, argVals[i].Type(), true)
+
+				continue
+			}
+
+			fa.a.usedWL[name] = g.reason
+		}
+
 		return
 	}
 
@@ -1330,7 +1506,6 @@ func (a *analyzer) implementations(c *ssa.CallCommon) []*ssa.Function {
 
 	return out
 }
-
 
 // ---------------------------------------------------------------- type-based filter
 //
@@ -1612,6 +1787,13 @@ func main() {
 			"GOWORK=off"),
 	}
 
+	t0 := time.Now()
+	phase := func(n string) {
+		if os.Getenv("EFFECTS_TIMING") != "" {
+			fmt.Fprintf(os.Stderr, "timing %-10s %6.1fs\n", n, time.Since(t0).Seconds())
+		}
+	}
+
 	pkgs, err := packages.Load(cfg, "./...")
 	if err != nil {
 		fmt.Fprintln(os.Stderr, "load:", err)
@@ -1633,8 +1815,11 @@ func main() {
 		os.Exit(2)
 	}
 
+	phase("load")
+
 	prog, _ := ssautil.AllPackages(pkgs, ssa.InstantiateGenerics)
 	prog.Build()
+	phase("ssa")
 
 	a := &analyzer{
 		prog: prog, fset: prog.Fset, repo: *repo, sums: map[ctxKey]*summary{}, inprog: map[ctxKey]bool{},
@@ -1821,6 +2006,8 @@ func main() {
 			rows = append(rows, row)
 		}
 	}
+
+	phase("analysis")
 
 	if *jsonOut != "" {
 		b, _ := json.MarshalIndent(map[string]any{"rows": rows, "whitelist_used": a.usedWL}, "", " ")
